@@ -121,7 +121,11 @@ Definition parse_publish (ver : N) (dup : bool) (qos : N) (retain : bool) (b : l
   else
     do '(pid, b) <- (if 0 <? qos then read_uint16 b else Ok (0, b));
     do '(pr, b) <- (if ver =? 5 then do '(p, b') <- props_unpack PUBLISH b; Ok (Some p, b') else Ok (None, b));
-    Ok (BPublish ver dup qos retain topic pid b pr).
+    (* len(p.TopicName) == 0 && (p.Version != Version5 || p.Properties.TopicAlias == nil) *)
+    if (len topic =? 0)
+       && (negb (ver =? 5) || match pr with Some p => negb (is_some (ps_get 35 (pr_single p))) | None => true end)
+    then Err PROTOCOL
+    else Ok (BPublish ver dup qos retain topic pid b pr).
 
 (* Puback / Pubrec / Pubcomp .Unpack *)
 Definition parse_ack (t ver rl : N) (b : list N) : res body :=
